@@ -213,3 +213,771 @@ Proof.
   - rewrite E, Z.compare_refl. cbn [thenc andb]. rewrite (forallb_lexz la lb Fa Fb E). destruct (lexz cmpn la lb); cbn; split; congruence.
   - cbn [andb]. destruct (Z.compare_spec (Z.of_nat (length la)) (Z.of_nat (length lb))); cbn; try lia; split; congruence.
 Qed.
+(* ================================================================== table level: unlist . listby and ungroup . groupby *)
+Definition is_list (v : val) : bool := match v with VList _ => true | _ => false end.
+Definition scalar_table (t : table) : Prop := Forall (fun cv => Forall (fun v => is_list v = false) (snd cv)) t.
+(* the key a row is filed under, once per row of its group, in group order *)
+Definition reps_of (G : list (val * list nat)) : list val := flat_map (fun g => repeat (fst g) (length (snd g))) G.
+(* key columns rebuilt from one key tuple per row *)
+Definition rep_table (by_ : list colname) (reps : list val) : table :=
+  map (fun jc => (snd jc, map (tuple_nth (fst jc)) reps)) (combine (seq 0 (length by_)) by_).
+Definition keypart (by_ : list colname) (t : table) : table := map (fun c => (c, getcol t c)) by_.
+
+Lemma spread_list l : spread (length l) (VList l) = l.
+Proof. destruct l as [|x [|y l]]; reflexivity. Qed.
+Lemma spread_scalar n v : is_list v = false -> spread n v = repeat v n.
+Proof. destruct v; cbn; try discriminate; auto. Qed.
+Lemma cell_len_scalar v : is_list v = false -> cell_len v = 1%nat.
+Proof. destruct v; cbn; try discriminate; auto. Qed.
+
+Lemma flat_map_map {A B C} (g : A -> B) (f : B -> list C) l : flat_map f (map g l) = flat_map (fun x => f (g x)) l.
+Proof. induction l; cbn; congruence. Qed.
+Lemma map_flat_map {A B C} (f : B -> C) (g : A -> list B) l : map f (flat_map g l) = flat_map (fun x => map f (g x)) l.
+Proof. induction l; cbn; auto. rewrite map_app, IHl. reflexivity. Qed.
+Lemma map_repeat' {A B} (f : A -> B) x n : map f (repeat x n) = repeat (f x) n.
+Proof. induction n; cbn; congruence. Qed.
+Lemma flat_map_ext_in' {A B} (f g : A -> list B) l : (forall a, In a l -> f a = g a) -> flat_map f l = flat_map g l.
+Proof. induction l; cbn; auto. intros H. rewrite H, IHl; auto. Qed.
+Lemma flat_map_seq_nth {A B} (f : A -> list B) d l : flat_map (fun i => f (nth i l d)) (seq 0 (length l)) = flat_map f l.
+Proof.
+  transitivity (flat_map f (map (fun i => nth (i - 0) l d) (seq 0 (length l)))); [|f_equal; apply map_nth_seq].
+  rewrite flat_map_map. apply flat_map_ext_in'. intros i _. rewrite Nat.sub_0_r. reflexivity.
+Qed.
+Lemma filter_map_comm {A} (p : A -> bool) (h : A -> A) l : (forall a, p (h a) = p a) -> filter p (map h l) = map h (filter p l).
+Proof. intros H. induction l; cbn; auto. rewrite H. destruct (p a); cbn; congruence. Qed.
+Lemma combine_map {A B C} (f : A -> B) (h : A -> C) l : combine (map f l) (map h l) = map (fun a => (f a, h a)) l.
+Proof. induction l; cbn; congruence. Qed.
+
+Lemma row_len_ge (r : arow) cv : In cv r -> (cell_len (snd cv) <= row_len r)%nat.
+Proof. induction r as [|a r IH]; cbn; [tauto|]. intros [->|H]; [apply Nat.le_max_l | etransitivity; [apply IH; auto | apply Nat.le_max_r]]. Qed.
+Lemma row_len_le (r : arow) m : (1 <= m)%nat -> (forall cv, In cv r -> (cell_len (snd cv) <= m)%nat) -> (row_len r <= m)%nat.
+Proof. intros Hm. induction r as [|a r IH]; cbn; intros H; [exact Hm|]. apply Nat.max_lub; [apply H; auto | apply IH; intros; apply H; auto]. Qed.
+
+Lemma unlist_pos t m : nrows t = m -> m <> 0%nat ->
+  unlist t = map (fun cv => (fst cv, flat_map (fun i => spread (row_len (row t i)) (nth i (snd cv) VNone)) (seq 0 m))) t.
+Proof. intros E Hm. unfold unlist. rewrite E. destruct m; [congruence|reflexivity]. Qed.
+
+(* a table whose rows are groups: key-derived scalar cells + list cells; unlist spreads it group by group *)
+Lemma unlist_grouped (G : list (val * list nat)) (kc : list (colname * (val -> val))) (nc : table) :
+  G <> [] -> kc <> [] -> nc <> [] -> Forall (fun g => snd g <> []) G ->
+  (forall g f, In g G -> In f kc -> is_list (snd f (fst g)) = false) ->
+  unlist (map (fun f => (fst f, map (fun g => snd f (fst g)) G)) kc ++ map (fun cv => (fst cv, map (fun g => VList (gather VNone (snd cv) (snd g))) G)) nc)
+  = map (fun f => (fst f, flat_map (fun g => repeat (snd f (fst g)) (length (snd g))) G)) kc
+    ++ map (fun cv => (fst cv, flat_map (fun g => gather VNone (snd cv) (snd g)) G)) nc.
+Proof.
+  intros HG Hkc Hnc NE SC.
+  set (L := map (fun f => (fst f, map (fun g => snd f (fst g)) G)) kc ++ map (fun cv => (fst cv, map (fun g => VList (gather VNone (snd cv) (snd g))) G)) nc).
+  set (d := (VNone, @nil nat)).
+  assert (NR : nrows L = length G). { unfold L. destruct kc as [|f0 kc']; [congruence|]. cbn. apply map_length. }
+  assert (RL : forall i, (i < length G)%nat -> row_len (row L i) = length (snd (nth i G d))).
+  { intros i Hi. assert (Ig : In (nth i G d) G) by (apply nth_In; exact Hi).
+    rewrite Forall_forall in NE. pose proof (NE _ Ig) as NEi.
+    apply Nat.le_antisymm.
+    - apply row_len_le; [destruct (snd (nth i G d)); [congruence | cbn; lia]|].
+      intros cv Hcv. unfold row in Hcv. apply in_map_iff in Hcv. destruct Hcv as [cv0 [<- H0]]. cbn [snd].
+      unfold L in H0. apply in_app_or in H0. destruct H0 as [H0|H0]; apply in_map_iff in H0; destruct H0 as [a [<- Ha]]; cbn [snd].
+      + rewrite (nth_indep _ VNone (snd a (fst d))) by (rewrite map_length; exact Hi).
+        rewrite (map_nth (fun g => snd a (fst g)) G d). rewrite cell_len_scalar by (apply SC; auto).
+        destruct (snd (nth i G d)); [congruence | cbn; lia].
+      + rewrite (nth_indep _ VNone (VList (gather VNone (snd a) (snd d)))) by (rewrite map_length; exact Hi).
+        rewrite (map_nth (fun g => VList (gather VNone (snd a) (snd g))) G d). cbn [cell_len]. unfold gather. rewrite map_length. lia.
+    - destruct nc as [|c0 nc']; [congruence|].
+      set (cv := (fst c0, nth i (map (fun g => VList (gather VNone (snd c0) (snd g))) G) VNone)).
+      assert (Icv : In cv (row L i)).
+      { unfold row. apply in_map_iff. exists (fst c0, map (fun g => VList (gather VNone (snd c0) (snd g))) G). split; [reflexivity|].
+        unfold L. apply in_or_app. right. left. reflexivity. }
+      pose proof (row_len_ge _ _ Icv) as LE. unfold cv in LE. cbn [snd] in LE.
+      rewrite (nth_indep _ VNone (VList (gather VNone (snd c0) (snd d)))) in LE by (rewrite map_length; exact Hi).
+      rewrite (map_nth (fun g => VList (gather VNone (snd c0) (snd g))) G d) in LE. cbn [cell_len] in LE. unfold gather in LE. rewrite map_length in LE. exact LE. }
+  rewrite (unlist_pos L (length G) NR) by (destruct G; cbn; congruence).
+  subst L. rewrite map_app, !map_map. f_equal; apply map_ext_in; intros a Ha; cbn [fst snd]; f_equal.
+  - rewrite <- (flat_map_seq_nth (fun g => repeat (snd a (fst g)) (length (snd g))) d G).
+    apply flat_map_ext_in'. intros i Hi. apply in_seq in Hi. rewrite RL by lia.
+    rewrite (nth_indep _ VNone (snd a (fst d))) by (rewrite map_length; lia).
+    rewrite (map_nth (fun g => snd a (fst g)) G d). apply spread_scalar. apply SC; auto. apply nth_In. lia.
+  - rewrite <- (flat_map_seq_nth (fun g => gather VNone (snd a) (snd g)) d G).
+    apply flat_map_ext_in'. intros i Hi. apply in_seq in Hi. rewrite RL by lia.
+    rewrite (nth_indep _ VNone (VList (gather VNone (snd a) (snd d)))) by (rewrite map_length; lia).
+    rewrite (map_nth (fun g => VList (gather VNone (snd a) (snd g))) G d).
+    replace (length (snd (nth i G d))) with (length (gather VNone (snd a) (snd (nth i G d)))) by (unfold gather; apply map_length).
+    apply spread_list.
+Qed.
+
+(* the key a group is filed under is one of the keys *)
+Lemma group_rep_in : forall l g, In g (group l) -> In (fst g) (map fst l).
+Proof.
+  induction l as [|[k i] l IH]; intros g Hg; [destruct Hg|]. destruct l as [|[k2 i2] l']. { cbn in Hg. destruct Hg as [<-|[]]. left. reflexivity. }
+  rewrite group_cons in Hg. destruct (group ((k2, i2) :: l')) as [|[rep is_] g'] eqn:E.
+  { destruct Hg as [<-|[]]. left. reflexivity. }
+  destruct (key_eqb k2 k).
+  - destruct Hg as [<-|Hg]; right; [apply (IH (rep, is_)); left; reflexivity | apply IH; right; exact Hg].
+  - destruct Hg as [<-|Hg]; [left; reflexivity | right; apply IH; exact Hg].
+Qed.
+Lemma listby_groups_rep_in ks g : In g (listby_groups ks) -> In (fst g) ks.
+Proof. intros H. apply sorted_pairs_fst_in. apply group_rep_in. exact H. Qed.
+Lemma listby_groups_ne ks : ks <> [] -> listby_groups ks <> [].
+Proof.
+  intros H E. pose proof (listby_groups_sizes ks) as S. rewrite E in S. cbn in S. destruct ks; [congruence | discriminate].
+Qed.
+
+(* keys of a table with scalar cells are tuples of non-list cells *)
+Lemma lookup_nonlist (r : arow) c : Forall (fun cv => is_list (snd cv) = false) r -> is_list (lookup r c) = false.
+Proof. induction 1 as [|[c' v] r H _ IH]; cbn; auto. destruct (cmp_str c c'); auto. Qed.
+Lemma row_nonlist t i : scalar_table t -> Forall (fun cv => is_list (snd cv) = false) (row t i).
+Proof.
+  intros H. unfold row. apply Forall_forall. intros cv Hcv. apply in_map_iff in Hcv. destruct Hcv as [[c vs] [<- Hc]]. cbn [snd].
+  unfold scalar_table in H. rewrite Forall_forall in H. specialize (H _ Hc). cbn in H.
+  destruct (Nat.lt_ge_cases i (length vs)) as [Hi|Hi]; [|rewrite nth_overflow by exact Hi; reflexivity].
+  rewrite Forall_forall in H. apply H. apply nth_In. exact Hi.
+Qed.
+Lemma keys_nonlist by_ t k j : scalar_table t -> In k (keys_of by_ t) -> is_list (tuple_nth j k) = false.
+Proof.
+  intros H Hk. unfold keys_of in Hk. apply in_map_iff in Hk. destruct Hk as [r [<- Hr]]. unfold rows in Hr. apply in_map_iff in Hr. destruct Hr as [i [<- _]].
+  unfold key_cols, tuple_nth. destruct (Nat.lt_ge_cases j (length (map (lookup (row t i)) by_))) as [Hj|Hj]; [|rewrite nth_overflow by exact Hj; reflexivity].
+  rewrite (nth_indep _ VNone (lookup (row t i) [])) by exact Hj. rewrite map_nth. apply lookup_nonlist. apply row_nonlist. exact H.
+Qed.
+
+Lemma key_table_as_kc by_ G :
+  key_table by_ G = map (fun f : colname * (val -> val) => (fst f, map (fun g : val * list nat => snd f (fst g)) G))
+                        (map (fun jc : nat * colname => (snd jc, tuple_nth (fst jc))) (combine (seq 0 (length by_)) by_)).
+Proof. unfold key_table. rewrite map_map. reflexivity. Qed.
+Lemma rep_table_as_kc by_ G :
+  map (fun f : colname * (val -> val) => (fst f, flat_map (fun g : val * list nat => repeat (snd f (fst g)) (length (snd g))) G))
+      (map (fun jc : nat * colname => (snd jc, tuple_nth (fst jc))) (combine (seq 0 (length by_)) by_)) = rep_table by_ (reps_of G).
+Proof.
+  unfold rep_table, reps_of. rewrite map_map. apply map_ext. intros [j c]. cbn [fst snd]. f_equal.
+  rewrite map_flat_map. apply flat_map_ext_in'. intros g _. rewrite map_repeat'. reflexivity.
+Qed.
+Lemma nonkey_permute by_ t idx : nonkey by_ (permute t idx) = map (fun cv => (fst cv, gather VNone (snd cv) idx)) (nonkey by_ t).
+Proof. unfold nonkey, permute. apply filter_map_comm. intros [c vs]. reflexivity. Qed.
+Lemma gather_flat {X} (d : X) vs (G : list (val * list nat)) : flat_map (fun g => gather d vs (snd g)) G = gather d vs (flat_map snd G).
+Proof. unfold gather. rewrite map_flat_map. reflexivity. Qed.
+
+(* unlist(listby): the key columns rebuilt from the groups' keys, then the other columns of the stably sorted table *)
+Theorem unlist_listby_table by_ t : by_ <> [] -> nrows t <> 0%nat -> nonkey by_ t <> [] -> scalar_table t ->
+  let ks := keys_of by_ t in
+  unlist (listby by_ t) = rep_table by_ (reps_of (listby_groups ks)) ++ nonkey by_ (permute t (dsort_idx ks)).
+Proof.
+  intros Hby Hn Hnk Hs ks. unfold listby. destruct (nrows t) eqn:E; [congruence|].
+  assert (A : all_if_none by_ t = by_) by (destruct by_; [congruence | reflexivity]). rewrite A. fold ks.
+  assert (Hks : ks <> []). { intros E0. pose proof (keys_length (key_cols by_) t) as L. fold (keys_of by_ t) in L. fold ks in L. rewrite E0, E in L. discriminate. }
+  rewrite key_table_as_kc. rewrite unlist_grouped.
+  - rewrite rep_table_as_kc. f_equal. rewrite nonkey_permute. apply map_ext. intros cv. f_equal. rewrite gather_flat, listby_groups_flat. reflexivity.
+  - apply listby_groups_ne. exact Hks.
+  - destruct by_; [congruence|]. cbn. congruence.
+  - exact Hnk.
+  - apply group_nonempty.
+  - intros g f Hg Hf. apply in_map_iff in Hf. destruct Hf as [[j c] [<- _]]. cbn [snd fst].
+    apply (keys_nonlist by_ t); [exact Hs | apply listby_groups_rep_in; exact Hg].
+Qed.
+
+(* row by row, the key a row is listed under compares 0 with that row's own key *)
+Lemma Forall2_repeat {A B} (R : A -> B -> Prop) b : forall l, (forall a, In a l -> R a b) -> Forall2 R l (repeat b (length l)).
+Proof. induction l; cbn; constructor; auto. Qed.
+Theorem reps_match ks : eq_cmp_compat ks ->
+  Forall2 (fun i rep => cmp (nth i ks VNone) rep = 0) (dsort_idx ks) (reps_of (listby_groups ks)).
+Proof.
+  intros H. rewrite <- listby_groups_flat. destruct (listby_groups_one_per_key ks H) as [_ M]. unfold reps_of.
+  induction M as [|g G [_ Mg] _ IH]; cbn [flat_map]; [constructor|]. apply Forall2_app; [|exact IH].
+  apply Forall2_repeat. intros i Hi. apply Mg. exact Hi.
+Qed.
+Lemma reps_length ks : length (reps_of (listby_groups ks)) = length ks.
+Proof.
+  rewrite <- (listby_groups_sizes ks). unfold reps_of. rewrite length_flat_map.
+  induction (listby_groups ks); cbn; auto. rewrite repeat_length, IHl. reflexivity.
+Qed.
+
+(* ---- ungroup . groupby *)
+Lemma getcol_in (T : table) cv : NoDup (map fst T) -> In cv T -> getcol T (fst cv) = snd cv.
+Proof.
+  unfold getcol. induction T as [|a T IH]; intros ND Hin; [destruct Hin|]. cbn [find]. inversion ND; subst.
+  destruct Hin as [->|Hin]. { unfold name_eqb. rewrite cmp_str_refl. reflexivity. }
+  destruct (name_eqb (fst cv) (fst a)) eqn:E; [|apply IH; auto].
+  exfalso. unfold name_eqb in E. destruct (cmp_str (fst cv) (fst a)) eqn:E2; try discriminate. apply cmp_str_eq in E2.
+  apply H1. rewrite <- E2. apply in_map. exact Hin.
+Qed.
+
+Theorem ungroup_groupby_table by_ t kt subs : by_ <> [] -> nrows t <> 0%nat -> nonkey by_ t <> [] -> NoDup (map fst t) ->
+  groupby by_ t = Some (kt, subs) ->
+  let ks := keys_of by_ t in
+  ungroup kt subs = nonkey by_ (permute t (dsort_idx ks)) ++ rep_table by_ (reps_of (listby_groups ks)).
+Proof.
+  intros Hby Hn Hnk ND Gb ks. unfold groupby in Gb. destruct (nrows t) eqn:E; [congruence|].
+  assert (A : all_if_none by_ t = by_) by (destruct by_; [congruence | reflexivity]). rewrite A in Gb. fold ks in Gb.
+  destruct (Nat.eqb _ _); [discriminate|]. inversion Gb; subst kt subs. clear Gb.
+  assert (Hks : ks <> []). { intros E0. pose proof (keys_length (key_cols by_) t) as L. fold (keys_of by_ t) in L. fold ks in L. rewrite E0, E in L. discriminate. }
+  pose proof (listby_groups_ne ks Hks) as HG. pose proof (listby_groups_flat ks) as FL. remember (listby_groups ks) as G eqn:EG0. clear EG0.
+  assert (NDnk : NoDup (map fst (nonkey by_ t))).
+  { unfold nonkey. clear - ND. induction t as [|a t IH]; cbn; [constructor|]. inversion ND; subst.
+    destruct (negb (in_names (fst a) by_)); cbn; [constructor|]; auto.
+    intros Hin. apply H1. apply in_map_iff in Hin. destruct Hin as [x [Ex Hx]]. apply filter_In in Hx. rewrite <- Ex. apply in_map. tauto. }
+  unfold ungroup. f_equal.
+  - assert (NM : match map (fun gi : val * list nat => map (fun cv : colname * list val => (fst cv, gather VNone (snd cv) (snd gi))) (nonkey by_ t)) G with
+                 | s :: _ => map fst s | [] => [] end = map fst (nonkey by_ t)).
+    { destruct G as [|g0 G']; [congruence|]. cbn [map]. rewrite map_map. reflexivity. }
+    match goal with |- map _ ?X = _ => replace X with (map fst (nonkey by_ t)) by (symmetry; exact NM) end.
+    rewrite !map_map. rewrite nonkey_permute. apply map_ext_in. intros cv Hcv. f_equal.
+    rewrite flat_map_map. rewrite <- FL. rewrite <- gather_flat. apply flat_map_ext_in'. intros g _.
+    set (h := fun cv0 : colname * list val => (fst cv0, gather VNone (snd cv0) (snd g))).
+    change (fst cv) with (fst (h cv)). change (gather VNone (snd cv) (snd g)) with (snd (h cv)).
+    apply getcol_in; [rewrite map_map; cbn; exact NDnk | apply in_map; exact Hcv].
+  - unfold key_table, rep_table. rewrite map_map. apply map_ext. intros [j c]. cbn [fst snd]. f_equal.
+    rewrite combine_map, flat_map_map. cbn [fst snd]. unfold reps_of. rewrite map_flat_map. apply flat_map_ext_in'. intros g _.
+    rewrite nrows_gather_table by exact Hnk. rewrite map_repeat'. reflexivity.
+Qed.
+
+(* ---- when == keys are identical (no 1 next to 1.0 in a key column): literal statements about rows *)
+Definition keys_exact (ks : list val) : Prop := forall a b, In a ks -> In b ks -> cmp a b = 0 -> a = b.
+
+Lemma reps_in ks r : In r (reps_of (listby_groups ks)) -> In r ks.
+Proof.
+  unfold reps_of. intros H. apply in_flat_map in H. destruct H as [g [Hg Hr]]. apply repeat_spec in Hr. subst. apply listby_groups_rep_in. exact Hg.
+Qed.
+Lemma reps_exact ks : eq_cmp_compat ks -> keys_exact ks -> reps_of (listby_groups ks) = map (fun i => nth i ks VNone) (dsort_idx ks).
+Proof.
+  intros H X. pose proof (reps_match ks H) as M. pose proof (dsort_idx_lt ks) as B. pose proof (reps_in ks) as RI.
+  induction M as [|i r l rs Hir _ IH]; [reflexivity|]. inversion B; subst. cbn [map]. f_equal.
+  - symmetry. apply X; [apply nth_In; auto | apply RI; left; reflexivity | exact Hir].
+  - apply IH; [auto | intros r' Hr'; apply RI; right; exact Hr'].
+Qed.
+
+Lemma lookup_row t i c : lookup (row t i) c = nth i (getcol t c) VNone.
+Proof.
+  unfold getcol. induction t as [|[c' vs] t IH]; cbn [row map lookup find fst snd]; [destruct i; reflexivity|].
+  unfold name_eqb. destruct (cmp_str c c'); auto.
+Qed.
+Lemma getcol_permute t idx c : in_names c (map fst t) = true -> getcol (permute t idx) c = gather VNone (getcol t c) idx.
+Proof.
+  unfold getcol, in_names. induction t as [|[c' vs] t IH]; cbn [map existsb permute find fst snd]; [discriminate|].
+  destruct (name_eqb c c'); cbn [orb snd]; auto.
+Qed.
+Lemma rep_table_gen (F : nat -> list val) (Hc : colname -> list val) : forall by' s,
+  (forall j, (j < length by')%nat -> F (s + j)%nat = Hc (nth j by' [])) ->
+  map (fun jc : nat * colname => (snd jc, F (fst jc))) (combine (seq s (length by')) by') = map (fun c => (c, Hc c)) by'.
+Proof.
+  induction by' as [|c by' IH]; intros s H; [reflexivity|]. cbn [length seq combine map fst snd]. f_equal.
+  - f_equal. pose proof (H 0%nat) as H0. cbn [nth length] in H0. rewrite <- H0 by lia. f_equal. lia.
+  - apply IH. intros j Hj. pose proof (H (S j)) as HS. cbn [nth length] in HS. rewrite <- HS by lia. f_equal. lia.
+Qed.
+
+Lemma rep_table_exact by_ t idx : Forall (fun c => in_names c (map fst t) = true) by_ -> Forall (fun i => (i < nrows t)%nat) idx ->
+  rep_table by_ (map (fun i => nth i (keys_of by_ t) VNone) idx) = keypart by_ (permute t idx).
+Proof.
+  intros Hsub B. unfold rep_table, keypart.
+  apply (rep_table_gen (fun j => map (tuple_nth j) (map (fun i => nth i (keys_of by_ t) VNone) idx)) (fun c => getcol (permute t idx) c) by_ 0%nat).
+  intros j Hj. cbv beta. change (0 + j)%nat with j. rewrite Forall_forall in Hsub.
+  etransitivity; [|symmetry; apply getcol_permute; apply Hsub; apply nth_In; exact Hj].
+  rewrite map_map. unfold gather. apply map_ext_in. intros i Hi. rewrite Forall_forall in B. specialize (B i Hi).
+  unfold keys_of. rewrite nth_keys by exact B. unfold key_cols, tuple_nth.
+  rewrite (nth_indep _ VNone (lookup (row t i) [])) by (rewrite map_length; exact Hj). rewrite map_nth. apply lookup_row.
+Qed.
+Lemma keypart_permute by_ t idx : Forall (fun c => in_names c (map fst t) = true) by_ -> permute (keypart by_ t) idx = keypart by_ (permute t idx).
+Proof.
+  intros H. unfold keypart, permute. rewrite map_map. apply map_ext_in. intros c Hc. cbv beta. cbn [fst snd]. rewrite Forall_forall in H.
+  f_equal. symmetry. apply getcol_permute. apply H; exact Hc.
+Qed.
+Lemma permute_app a b idx : permute (a ++ b) idx = permute a idx ++ permute b idx.
+Proof. apply map_app. Qed.
+Lemma nonkey_permute' by_ t idx : permute (nonkey by_ t) idx = nonkey by_ (permute t idx).
+Proof. rewrite nonkey_permute. reflexivity. Qed.
+
+Section Exact.
+  Variables (by_ : list colname) (t : table).
+  Hypothesis Hby : by_ <> [].
+  Hypothesis Hn : nrows t <> 0%nat.
+  Hypothesis Hnk : nonkey by_ t <> [].
+  Hypothesis Hsub : Forall (fun c => in_names c (map fst t) = true) by_.
+  Let ks := keys_of by_ t.
+  Hypothesis Hc : eq_cmp_compat ks.
+  Hypothesis Hx : keys_exact ks.
+  Let idx := dsort_idx ks.
+
+  Lemma idx_lt_nrows : Forall (fun i => (i < nrows t)%nat) idx.
+  Proof. pose proof (dsort_idx_lt ks) as B. unfold ks in B at 1. unfold keys_of in B. rewrite keys_length in B. exact B. Qed.
+
+  (* unlist(listby(keys)) IS the table (key columns first) with its rows in stable key order *)
+  Theorem unlist_listby_exact : scalar_table t ->
+    unlist (listby by_ t) = permute (keypart by_ t ++ nonkey by_ t) idx /\
+    rows (unlist (listby by_ t)) = map (row (keypart by_ t ++ nonkey by_ t)) idx.
+  Proof.
+    intros Hs. assert (E : unlist (listby by_ t) = permute (keypart by_ t ++ nonkey by_ t) idx).
+    { rewrite (unlist_listby_table by_ t Hby Hn Hnk Hs). fold ks. rewrite (reps_exact ks Hc Hx). fold idx.
+      rewrite permute_app, keypart_permute, nonkey_permute' by exact Hsub. f_equal. apply rep_table_exact; [exact Hsub | apply idx_lt_nrows]. }
+    split; [exact E|]. rewrite E. apply rows_permute. destruct by_; [congruence | discriminate].
+  Qed.
+
+  (* ungroup(groupby(keys)) holds exactly the rows of the table (key columns last), each once *)
+  Theorem ungroup_groupby_exact n kt subs : rect n t -> NoDup (map fst t) -> groupby by_ t = Some (kt, subs) ->
+    ungroup kt subs = permute (nonkey by_ t ++ keypart by_ t) idx /\
+    Permutation (rows (ungroup kt subs)) (rows (nonkey by_ t ++ keypart by_ t)).
+  Proof.
+    intros Hr ND Gb. assert (E : ungroup kt subs = permute (nonkey by_ t ++ keypart by_ t) idx).
+    { rewrite (ungroup_groupby_table by_ t kt subs Hby Hn Hnk ND Gb). fold ks. rewrite (reps_exact ks Hc Hx). fold idx.
+      rewrite permute_app, keypart_permute, nonkey_permute' by exact Hsub. f_equal. apply rep_table_exact; [exact Hsub | apply idx_lt_nrows]. }
+    split; [exact E|]. rewrite E. rewrite rows_permute by (destruct (nonkey by_ t); [congruence | discriminate]).
+    unfold rows at 1. apply Permutation_map.
+    assert (NR : nrows (nonkey by_ t ++ keypart by_ t) = nrows t).
+    { destruct (nonkey by_ t) as [|[c vs] nk] eqn:EN; [congruence|]. cbn.
+      assert (In (c, vs) t). { assert (I : In (c, vs) (nonkey by_ t)) by (rewrite EN; left; reflexivity). unfold nonkey in I. apply filter_In in I. tauto. }
+      unfold rect in Hr. rewrite Forall_forall in Hr. pose proof (Hr _ H) as L1. cbn in L1. rewrite L1. destruct t as [|[c0 v0] t']; [destruct H|]. cbn. symmetry. apply (Hr (c0, v0)). left. reflexivity. }
+    rewrite NR. pose proof (proj1 (dsort_idx_stable ks)) as P. unfold ks in P at 2. unfold keys_of in P. rewrite keys_length in P. exact P.
+  Qed.
+End Exact.
+
+(* ================================================================== a group holds EXACTLY the rows whose key compares 0 with its key *)
+Lemma ssorted_filter {X} (R : X -> X -> Prop) p l : StronglySorted R l -> StronglySorted R (filter p l).
+Proof.
+  induction 1; cbn; [constructor|]. destruct (p a); auto. constructor; auto.
+  rewrite Forall_forall in *. intros b Hb. apply filter_In in Hb. apply H0. tauto.
+Qed.
+Lemma seq_ssorted : forall n s, StronglySorted (fun i j => (i < j)%nat) (seq s n).
+Proof. induction n; intros s; cbn; constructor; auto. apply Forall_forall. intros j Hj. apply in_seq in Hj. lia. Qed.
+Lemma sorted_lt_unique : forall l1 l2 : list nat, StronglySorted (fun i j => (i < j)%nat) l1 -> StronglySorted (fun i j => (i < j)%nat) l2 ->
+  (forall i, In i l1 <-> In i l2) -> l1 = l2.
+Proof.
+  induction l1 as [|a l1 IH]; intros l2 S1 S2 H.
+  - destruct l2 as [|b l2]; auto. exfalso. apply (proj2 (H b)). left. reflexivity.
+  - destruct l2 as [|b l2]; [exfalso; apply (proj1 (H a)); left; reflexivity|].
+    inversion S1 as [|? ? S1' F1]; inversion S2 as [|? ? S2' F2]; subst. rewrite Forall_forall in F1, F2.
+    assert (a = b).
+    { destruct (proj1 (H a) (or_introl eq_refl)) as [Hb|Hb]; [auto|]. destruct (proj2 (H b) (or_introl eq_refl)) as [Ha|Ha]; [auto|].
+      specialize (F1 _ Ha). specialize (F2 _ Hb). lia. }
+    subst b. f_equal. apply IH; auto. intros i. split; intros Hi.
+    + destruct (proj1 (H i) (or_intror Hi)) as [E|E]; [subst; specialize (F1 _ Hi); lia | exact E].
+    + destruct (proj2 (H i) (or_intror Hi)) as [E|E]; [subst; specialize (F2 _ Hi); lia | exact E].
+Qed.
+Lemma ssorted_map_trichotomy {X Y} (R : Y -> Y -> Prop) (f : X -> Y) : forall l, StronglySorted R (map f l) ->
+  forall a b, In a l -> In b l -> a = b \/ R (f a) (f b) \/ R (f b) (f a).
+Proof.
+  induction l as [|x l IH]; intros S a b Ha Hb; [destruct Ha|]. cbn in S. inversion S as [|? ? S' F]; subst. rewrite Forall_forall in F.
+  destruct Ha as [<-|Ha], Hb as [<-|Hb]; auto.
+  - right. left. apply F. apply in_map. exact Hb.
+  - right. right. apply F. apply in_map. exact Ha.
+Qed.
+
+Theorem listby_group_ids ks g : eq_cmp_compat ks -> In g (listby_groups ks) ->
+  snd g = filter (fun i => cmp (nth i ks VNone) (fst g) =? 0) (seq 0 (length ks)).
+Proof.
+  intros H Hg. destruct (listby_groups_one_per_key ks H) as [SS M]. pose proof (listby_groups_original_order ks H) as OO.
+  rewrite Forall_forall in M, OO. destruct (M g Hg) as [_ Mg].
+  apply sorted_lt_unique; [apply OO; exact Hg | apply ssorted_filter, seq_ssorted|].
+  intros i. rewrite filter_In, in_seq, Z.eqb_eq. split.
+  - intros Hi. destruct (Mg i Hi). split; [lia | auto].
+  - intros [Hi Ci]. assert (Ii : In i (flat_map snd (listby_groups ks))).
+    { apply (Permutation_in _ (Permutation_sym (listby_groups_perm ks))). apply in_seq. lia. }
+    apply in_flat_map in Ii. destruct Ii as [g' [Hg' Hi']]. destruct (M g' Hg') as [_ Mg']. destruct (Mg' i Hi') as [_ Ci'].
+    destruct (ssorted_map_trichotomy _ fst _ SS g g' Hg Hg') as [E|[L|L]]; [subst; exact Hi' | |]; exfalso.
+    + rewrite (cmp_eq_compat_l (fst g) (nth i ks VNone) (fst g')) in L by (apply cmp0_sym; exact Ci). lia.
+    + rewrite (cmp_eq_compat_l (fst g') (nth i ks VNone) (fst g)) in L by (apply cmp0_sym; exact Ci'). lia.
+Qed.
+(* ================================================================== pivot *)
+Lemma cmp0_trans a b c : cmp a b = 0 -> cmp b c = 0 -> cmp a c = 0.
+Proof. intros H1 H2. rewrite (cmp_eq_compat_l a b c H1). exact H2. Qed.
+Lemma c2z_0 c : c2z c = 0 <-> c = Eq.
+Proof. destruct c; cbn; split; intros; try reflexivity; try discriminate; try lia. Qed.
+Lemma thenc_assoc a b c : thenc (thenc a b) c = thenc a (thenc b c).
+Proof. destruct a; reflexivity. Qed.
+Lemma lexp_app {A B} (p : A -> B) (c : B -> B -> comparison) : forall a b l1 l2, length a = length b ->
+  lexp p c (a ++ l1) (b ++ l2) = thenc (lexp p c a b) (lexp p c l1 l2).
+Proof.
+  induction a as [|x a IH]; destruct b as [|y b]; cbn [length]; try discriminate; intros l1 l2 L; [reflexivity|].
+  cbn [app lexp]. rewrite IH by lia. rewrite thenc_assoc. reflexivity.
+Qed.
+Lemma cmp_scalar u v : scalar_nf u -> scalar_nf v -> cmp u v = c2z (cmpn u v).
+Proof. intros Hu Hv. unfold cmp, cmpc. rewrite !scalar_nf_norm by auto. reflexivity. Qed.
+Lemma elem_eqb_cmp u v : scalar_nf u -> scalar_nf v -> (elem_eqb u v = true <-> cmp u v = 0).
+Proof. intros Hu Hv. rewrite cmp_scalar, c2z_0 by auto. apply elem_eqb_cmpn; auto. Qed.
+Lemma cmp_tuple_scalar a b : Forall scalar_nf a -> Forall scalar_nf b -> length a = length b ->
+  cmp (VTuple a) (VTuple b) = c2z (lexz cmpn a b).
+Proof.
+  intros Fa Fb L. unfold cmp, cmpc. cbn [norm]. rewrite !map_norm_id by auto. rewrite cmpn_eq. cbn [rank len0 cmpn_body].
+  rewrite L, !Z.compare_refl. reflexivity.
+Qed.
+Lemma cmp_tuple1 a b : cmp (VTuple [a]) (VTuple [b]) = cmp a b.
+Proof.
+  unfold cmp, cmpc. cbn [norm map]. rewrite cmpn_eq. cbn [rank len0 length cmpn_body lexz lexp]. rewrite !Z.compare_refl. cbn [thenc].
+  rewrite thenc_Eq_r. reflexivity.
+Qed.
+Lemma cmp_xy_split a b u v : Forall scalar_nf a -> Forall scalar_nf b -> scalar_nf u -> scalar_nf v -> length a = length b ->
+  (cmp (VTuple (a ++ [u])) (VTuple (b ++ [v])) = 0 <-> cmp (VTuple a) (VTuple b) = 0 /\ cmp u v = 0).
+Proof.
+  intros Fa Fb Hu Hv L.
+  rewrite cmp_tuple_scalar by (try apply Forall_app; auto; rewrite !app_length; cbn; lia).
+  rewrite (cmp_tuple_scalar a b Fa Fb L), (cmp_scalar u v Hu Hv), !c2z_0.
+  unfold lexz. rewrite lexp_app by exact L. cbn [lexp]. rewrite thenc_Eq_r. apply thenc_Eq.
+Qed.
+
+(* index_of: the first label == the value *)
+Lemma index_of_some x : forall l i k, index_of x l i = Some k -> (i <= k < i + length l)%nat /\ elem_eqb (nth (k - i) l VNone) x = true.
+Proof.
+  induction l as [|v l IH]; intros i k H; cbn in H; [discriminate|]. destruct (elem_eqb v x) eqn:E.
+  - inversion H; subst. rewrite Nat.sub_diag. cbn. split; [lia | exact E].
+  - apply IH in H. destruct H as [H1 H2]. cbn [length]. split; [lia|]. replace (k - i)%nat with (S (k - S i)) by lia. exact H2.
+Qed.
+Lemma index_of_exists x : forall l i, (exists k, (k < length l)%nat /\ elem_eqb (nth k l VNone) x = true) -> exists k', index_of x l i = Some k'.
+Proof.
+  induction l as [|v l IH]; intros i [k [Hk E]]; [cbn in Hk; lia|]. cbn [index_of]. destruct (elem_eqb v x) eqn:E0; [eexists; reflexivity|].
+  destruct k; [cbn in E; congruence|]. apply IH. exists k. cbn in Hk, E. split; [lia | exact E].
+Qed.
+
+(* the fold that fills one pivot cell keeps the value of the last group filed there *)
+Lemma find_app' {A} (m : A -> bool) l l' : find m (l ++ l') = match find m l with Some x => Some x | None => find m l' end.
+Proof. induction l as [|x l IH]; cbn; auto. destruct (m x); auto. Qed.
+Lemma fold_last_match {A} (m : nat -> bool) (V : nat -> A) : forall js acc,
+  fold_left (fun acc j => if m j then V j else acc) js acc = match find m (rev js) with Some j => V j | None => acc end.
+Proof.
+  induction js as [|j js IH]; intros acc; [reflexivity|]. cbn [fold_left rev]. rewrite IH, find_app'.
+  destruct (find m (rev js)); [reflexivity|]. cbn [find]. destruct (m j); reflexivity.
+Qed.
+Lemma ssorted_map_transfer {X Y Z} (R : Y -> Y -> Prop) (R' : Z -> Z -> Prop) (f : X -> Y) (h : X -> Z) : forall l,
+  (forall a b, In a l -> In b l -> R (f a) (f b) -> R' (h a) (h b)) -> StronglySorted R (map f l) -> StronglySorted R' (map h l).
+Proof.
+  induction l as [|x l IH]; intros H S; [constructor|]. cbn in *. inversion S as [|? ? S' F]; subst. constructor.
+  - apply IH; auto.
+  - rewrite Forall_forall in *. intros z Hz. apply in_map_iff in Hz. destruct Hz as [b [<- Hb]]. apply H; auto. apply F. apply in_map. exact Hb.
+Qed.
+
+Definition xyshape (m : nat) (k : val) : Prop := exists a u, k = VTuple (a ++ [u]) /\ length a = m /\ Forall scalar_nf a /\ scalar_nf u.
+Definition pv_xys (KS : list val) : list val := map fst (listby_groups KS).
+Definition pv_ylabels (m : nat) (KS : list val) : list val :=
+  map (fun gi : val * list nat => tuple_nth 0 (fst gi)) (listby_groups (map (fun xy => VTuple [tuple_nth m xy]) (pv_xys KS))).
+Definition pv_xg (m : nat) (KS : list val) : list (val * list nat) := listby_groups (map (tuple_firstn m) (pv_xys KS)).
+Definition pv_cell (m : nat) (KS zs : list val) (a : agg) (gi : val * list nat) (k : nat) : val :=
+  fold_left (fun acc j => match index_of (tuple_nth m (nth j (pv_xys KS) VNone)) (pv_ylabels m KS) 0 with
+                          | Some k' => if Nat.eqb k k' then apply_agg a (gather VNone zs (snd (nth j (listby_groups KS) (VNone, [])))) else acc
+                          | None => acc
+                          end) (snd gi) VNone.
+(* the model's pivot, with its cells named *)
+Lemma pivot_unfold x y z a t :
+  pivot x y z a t =
+  key_table x (pv_xg (length x) (keys_of (x ++ [y]) t)) ++
+  map (fun kl => (label_of (snd kl), map (fun gi => pv_cell (length x) (keys_of (x ++ [y]) t) (getcol t z) a gi (fst kl)) (pv_xg (length x) (keys_of (x ++ [y]) t))))
+      (combine (seq 0 (length (pv_ylabels (length x) (keys_of (x ++ [y]) t)))) (pv_ylabels (length x) (keys_of (x ++ [y]) t))).
+Proof. reflexivity. Qed.
+
+Lemma fold_left_ext {A B} (f g : A -> B -> A) : (forall a b, f a b = g a b) -> forall l a, fold_left f l a = fold_left g l a.
+Proof. intros H. induction l; cbn; auto. intros. rewrite H. auto. Qed.
+Lemma tuple_firstn_shape m a u : length a = m -> tuple_firstn m (VTuple (a ++ [u])) = VTuple a.
+Proof. intros L. cbn. rewrite firstn_app, L, Nat.sub_diag. cbn. rewrite <- L, firstn_all, app_nil_r. reflexivity. Qed.
+Lemma tuple_nth_shape m a u : length a = m -> tuple_nth m (VTuple (a ++ [u])) = u.
+Proof. intros L. cbn. rewrite app_nth2 by lia. rewrite L, Nat.sub_diag. reflexivity. Qed.
+
+Section Pivot.
+  Variables (m : nat) (KS : list val).
+  Hypothesis HK : Forall (xyshape m) KS.
+  Let G := listby_groups KS.
+  Let xys := pv_xys KS.
+  Let XS := map (tuple_firstn m) xys.
+  Let YS := map (fun xy => VTuple [tuple_nth m xy]) xys.
+  Let YL := pv_ylabels m KS.
+  Let d : val * list nat := (VNone, []).
+
+  Lemma pv_compatKS : eq_cmp_compat KS.
+  Proof.
+    apply scalar_keys_compat. eapply Forall_impl; [|exact HK]. intros k [a [u [-> [_ [Fa Hu]]]]]. exists (a ++ [u]). split; [reflexivity|].
+    apply Forall_app. split; [exact Fa | constructor; [exact Hu | constructor]].
+  Qed.
+  Lemma pv_xys_shape : Forall (xyshape m) xys.
+  Proof.
+    apply Forall_forall. intros k Hk. unfold xys, pv_xys in Hk. apply in_map_iff in Hk. destruct Hk as [g [<- Hg]].
+    rewrite Forall_forall in HK. apply HK. apply listby_groups_rep_in. exact Hg.
+  Qed.
+  Lemma pv_compatXS : eq_cmp_compat XS.
+  Proof.
+    apply scalar_keys_compat. apply Forall_forall. intros k Hk. unfold XS in Hk. apply in_map_iff in Hk. destruct Hk as [xy [<- Hxy]].
+    pose proof pv_xys_shape as S. rewrite Forall_forall in S. destruct (S _ Hxy) as [a [u [-> [L [Fa Hu]]]]].
+    rewrite tuple_firstn_shape by exact L. exists a. split; auto.
+  Qed.
+  Lemma pv_compatYS : eq_cmp_compat YS.
+  Proof.
+    apply scalar_keys_compat. apply Forall_forall. intros k Hk. unfold YS in Hk. apply in_map_iff in Hk. destruct Hk as [xy [<- Hxy]].
+    pose proof pv_xys_shape as S. rewrite Forall_forall in S. destruct (S _ Hxy) as [a [u [-> [L [Fa Hu]]]]].
+    rewrite tuple_nth_shape by exact L. exists [u]. split; auto.
+  Qed.
+  Lemma pv_xys_nth j : (j < length G)%nat -> nth j xys VNone = fst (nth j G d) /\ In (nth j G d) G /\ xyshape m (nth j xys VNone).
+  Proof.
+    intros Hj. unfold xys, pv_xys. fold G. split; [apply (map_nth fst G d)|]. split; [apply nth_In; exact Hj|].
+    pose proof pv_xys_shape as S. rewrite Forall_forall in S. apply S. unfold xys, pv_xys. fold G. apply nth_In. rewrite map_length. exact Hj.
+  Qed.
+  Lemma pv_YL_scalar : Forall scalar_nf YL.
+  Proof.
+    apply Forall_forall. intros v Hv. unfold YL, pv_ylabels in Hv. apply in_map_iff in Hv. destruct Hv as [gy [<- Hgy]].
+    apply listby_groups_rep_in in Hgy. fold xys in Hgy. apply in_map_iff in Hgy. destruct Hgy as [xy [<- Hxy]].
+    pose proof pv_xys_shape as S. rewrite Forall_forall in S. destruct (S _ Hxy) as [a [u [-> [L [Fa Hu]]]]].
+    rewrite tuple_nth_shape by exact L. cbn. exact Hu.
+  Qed.
+  Lemma pv_YL_sorted : StronglySorted (fun a b => cmp a b < 0) YL.
+  Proof.
+    unfold YL, pv_ylabels. fold xys. fold YS.
+    apply (ssorted_map_transfer (fun a b => cmp a b < 0) (fun a b => cmp a b < 0) fst (fun gi => tuple_nth 0 (fst gi))).
+    - intros g1 g2 H1 H2 C. apply listby_groups_rep_in in H1, H2. unfold YS in H1, H2. apply in_map_iff in H1, H2.
+      destruct H1 as [xy1 [E1 _]], H2 as [xy2 [E2 _]]. rewrite <- E1, <- E2 in *. cbn. rewrite cmp_tuple1 in C. exact C.
+    - apply (listby_groups_one_per_key YS pv_compatYS).
+  Qed.
+
+  Lemma pv_LXS : length XS = length G.
+  Proof. unfold XS, xys, pv_xys. rewrite !map_length. reflexivity. Qed.
+  Lemma pv_XSj j : (j < length G)%nat -> exists aj uj, nth j xys VNone = VTuple (aj ++ [uj]) /\ length aj = m /\ Forall scalar_nf aj /\ scalar_nf uj /\
+                       nth j XS VNone = VTuple aj /\ tuple_nth m (nth j xys VNone) = uj.
+  Proof.
+    intros Hj. destruct (pv_xys_nth j Hj) as [_ [_ [aj [uj [E [L [Fa Hu]]]]]]]. exists aj, uj. repeat split; auto.
+    - unfold XS. change VNone with (tuple_firstn m VNone) at 1. rewrite map_nth, E. apply tuple_firstn_shape. exact L.
+    - rewrite E. apply tuple_nth_shape. exact L.
+  Qed.
+  Lemma pv_KSi i : (i < length KS)%nat -> exists ai ui, nth i KS VNone = VTuple (ai ++ [ui]) /\ length ai = m /\ Forall scalar_nf ai /\ scalar_nf ui.
+  Proof. intros Hi. rewrite Forall_forall in HK. apply (HK (nth i KS VNone)). apply nth_In. exact Hi. Qed.
+  (* row i against the distinct (x, y) key number j *)
+  Lemma pv_split i j : (i < length KS)%nat -> (j < length G)%nat ->
+              (cmp (nth i KS VNone) (nth j xys VNone) = 0 <->
+               cmp (tuple_firstn m (nth i KS VNone)) (nth j XS VNone) = 0 /\ cmp (tuple_nth m (nth i KS VNone)) (tuple_nth m (nth j xys VNone)) = 0).
+  Proof.
+    intros Hi Hj. destruct (pv_KSi i Hi) as [ai [ui [Ei [Li [Fi Hui]]]]]. destruct (pv_XSj j Hj) as [aj [uj [Ej [Lj [Fj [Huj [EX EY]]]]]]].
+    rewrite EX, EY, Ei, Ej. rewrite tuple_firstn_shape, tuple_nth_shape by exact Li. apply cmp_xy_split; auto. lia.
+  Qed.
+
+  Theorem pivot_cell_spec zs a gi k : In gi (pv_xg m KS) -> (k < length YL)%nat ->
+    pv_cell m KS zs a gi k =
+    match filter (fun i => (cmp (tuple_firstn m (nth i KS VNone)) (fst gi) =? 0) && (cmp (tuple_nth m (nth i KS VNone)) (nth k YL VNone) =? 0)) (seq 0 (length KS)) with
+    | [] => VNone
+    | R => apply_agg a (gather VNone zs R)
+    end.
+  Proof.
+    intros Hgi Hk. set (X := fst gi). set (Y := nth k YL VNone).
+    assert (HY : scalar_nf Y). { pose proof pv_YL_scalar as S. rewrite Forall_forall in S. apply S. apply nth_In. exact Hk. }
+    set (mb := fun j => match index_of (tuple_nth m (nth j xys VNone)) YL 0 with Some k' => Nat.eqb k k' | None => false end).
+    set (V := fun j => apply_agg a (gather VNone zs (snd (nth j G d)))).
+    assert (EF : pv_cell m KS zs a gi k = fold_left (fun acc j => if mb j then V j else acc) (snd gi) VNone).
+    { unfold pv_cell. apply fold_left_ext. intros acc j. unfold mb, V. fold xys. fold YL. fold G. fold d.
+      destruct (index_of (tuple_nth m (nth j xys VNone)) YL 0); [destruct (Nat.eqb k n)|]; reflexivity. }
+    rewrite EF, fold_last_match. clear EF.
+    (* what the groups are *)
+    pose proof (listby_group_ids XS gi pv_compatXS Hgi) as IDS. fold X in IDS.
+    pose proof pv_LXS as LXS. pose proof pv_XSj as XSj. pose proof pv_KSi as KSi. pose proof pv_split as SPLIT.
+    pose proof pv_compatKS as CK. destruct (listby_groups_one_per_key KS CK) as [_ MEM]. fold G in MEM. rewrite Forall_forall in MEM.
+    destruct (find mb (rev (snd gi))) as [j|] eqn:FD.
+    - apply find_some in FD. destruct FD as [Ij Mj]. apply in_rev in Ij.
+      rewrite IDS in Ij. apply filter_In in Ij. destruct Ij as [Ij Cj]. apply in_seq in Ij. rewrite LXS in Ij. apply Z.eqb_eq in Cj.
+      assert (Hj : (j < length G)%nat) by lia.
+      destruct (XSj j Hj) as [aj [uj [Ej [Lj [Fj [Huj [EX EY]]]]]]].
+      unfold mb in Mj. destruct (index_of (tuple_nth m (nth j xys VNone)) YL 0) as [k'|] eqn:IO; [|discriminate]. apply Nat.eqb_eq in Mj. subst k'.
+      apply index_of_some in IO. destruct IO as [_ IO]. rewrite Nat.sub_0_r in IO. fold Y in IO. rewrite EY in IO.
+      apply (elem_eqb_cmp Y uj HY Huj) in IO.
+      destruct (pv_xys_nth j Hj) as [EF [IG _]].
+      assert (ER : filter (fun i => (cmp (tuple_firstn m (nth i KS VNone)) X =? 0) && (cmp (tuple_nth m (nth i KS VNone)) Y =? 0)) (seq 0 (length KS)) = snd (nth j G d)).
+      { rewrite (listby_group_ids KS (nth j G d) CK IG). apply filter_ext_in. intros i Hi. apply in_seq in Hi.
+        apply eq_true_iff_eq. rewrite andb_true_iff, !Z.eqb_eq. rewrite <- EF. rewrite (SPLIT i j) by lia. rewrite EY.
+        split; intros [A B]; split.
+        - apply (cmp0_trans _ X); [exact A | apply cmp0_sym; exact Cj].
+        - apply (cmp0_trans _ Y); [exact B | exact IO].
+        - apply (cmp0_trans _ (nth j XS VNone)); [exact A | exact Cj].
+        - apply (cmp0_trans _ uj); [exact B | apply cmp0_sym; exact IO]. }
+      rewrite ER. unfold V. destruct (MEM _ IG) as [NE _]. destruct (snd (nth j G d)); [congruence | reflexivity].
+    - destruct (filter _ (seq 0 (length KS))) as [|i R'] eqn:ER; [reflexivity|]. exfalso.
+      assert (Ii : In i (i :: R')) by (left; reflexivity). rewrite <- ER in Ii. apply filter_In in Ii. destruct Ii as [Hi Ci].
+      apply in_seq in Hi. apply andb_true_iff in Ci. rewrite !Z.eqb_eq in Ci. destruct Ci as [CX CY].
+      assert (Ig : In i (flat_map snd G)). { apply (Permutation_in _ (Permutation_sym (listby_groups_perm KS))). apply in_seq. lia. }
+      apply in_flat_map in Ig. destruct Ig as [g [Hg Hig]]. destruct (In_nth _ _ d Hg) as [j [Hj Eg]].
+      destruct (MEM _ Hg) as [_ Mg]. destruct (Mg i Hig) as [_ Cg]. rewrite <- Eg in Cg.
+      destruct (pv_xys_nth j Hj) as [EF _]. rewrite <- EF in Cg. apply (SPLIT i j) in Cg; [|lia|exact Hj]. destruct Cg as [CgX CgY].
+      destruct (XSj j Hj) as [aj [uj [Ej [Lj [Fj [Huj [EX EY]]]]]]].
+      assert (Ij : In j (snd gi)).
+      { rewrite IDS. apply filter_In. split; [apply in_seq; lia|]. apply Z.eqb_eq. apply (cmp0_trans _ (tuple_firstn m (nth i KS VNone))); [apply cmp0_sym; exact CgX | exact CX]. }
+      assert (Mj : mb j = true).
+      { unfold mb. rewrite EY in *. assert (CYu : cmp Y uj = 0) by (apply (cmp0_trans _ (tuple_nth m (nth i KS VNone))); [apply cmp0_sym; exact CY | exact CgY]).
+        destruct (index_of_exists uj YL 0%nat) as [k' IO]. { exists k. split; [exact Hk|]. apply (elem_eqb_cmp Y uj HY Huj). exact CYu. }
+        rewrite IO. apply Nat.eqb_eq. apply index_of_some in IO. destruct IO as [B IO]. rewrite Nat.sub_0_r in IO. cbn in B.
+        assert (SK : scalar_nf (nth k' YL VNone)). { pose proof pv_YL_scalar as S. rewrite Forall_forall in S. apply S. apply nth_In. lia. }
+        apply (elem_eqb_cmp _ uj SK Huj) in IO.
+        assert (C0 : cmp (nth k' YL VNone) Y = 0) by (apply (cmp0_trans _ uj); [exact IO | apply cmp0_sym; exact CYu]).
+        destruct (Nat.lt_trichotomy k k') as [L|[E|L]]; [|exact E|]; exfalso.
+        - pose proof (StronglySorted_nth _ VNone YL pv_YL_sorted k k') as S. cbv beta in S. fold Y in S. specialize (S ltac:(lia)). rewrite (cmp_antisym Y) in S. lia.
+        - pose proof (StronglySorted_nth _ VNone YL pv_YL_sorted k' k) as S. cbv beta in S. fold Y in S. specialize (S ltac:(lia)). lia. }
+      pose proof (find_none _ _ FD j) as FN. rewrite FN in Mj; [discriminate|]. apply in_rev. rewrite rev_involutive. exact Ij.
+  Qed.
+
+  (* every row has its cell: an x-group and a y label comparing 0 with the row's own x key and y value *)
+  Theorem pivot_row_has_cell i : (i < length KS)%nat ->
+    exists gi k, In gi (pv_xg m KS) /\ (k < length YL)%nat /\
+      cmp (tuple_firstn m (nth i KS VNone)) (fst gi) = 0 /\ cmp (tuple_nth m (nth i KS VNone)) (nth k YL VNone) = 0.
+  Proof.
+    intros Hi. pose proof pv_compatKS as CK. destruct (listby_groups_one_per_key KS CK) as [_ MEM]. fold G in MEM. rewrite Forall_forall in MEM.
+    assert (Ig : In i (flat_map snd G)). { apply (Permutation_in _ (Permutation_sym (listby_groups_perm KS))). apply in_seq. lia. }
+    apply in_flat_map in Ig. destruct Ig as [g [Hg Hig]]. destruct (In_nth _ _ d Hg) as [j [Hj Eg]].
+    destruct (MEM _ Hg) as [_ Mg]. destruct (Mg i Hig) as [_ Cg]. rewrite <- Eg in Cg.
+    destruct (pv_xys_nth j Hj) as [EF _]. rewrite <- EF in Cg. apply (pv_split i j Hi Hj) in Cg. destruct Cg as [CgX CgY].
+    destruct (pv_XSj j Hj) as [aj [uj [Ej [Lj [Fj [Huj [EX EY]]]]]]].
+    (* the x group of j *)
+    assert (JX : In j (flat_map snd (pv_xg m KS))).
+    { apply (Permutation_in _ (Permutation_sym (listby_groups_perm XS))). apply in_seq. rewrite pv_LXS. lia. }
+    apply in_flat_map in JX. destruct JX as [gi [Hgi Hjg]].
+    destruct (listby_groups_one_per_key XS pv_compatXS) as [_ MX]. rewrite Forall_forall in MX. destruct (MX _ Hgi) as [_ MXg]. destruct (MXg j Hjg) as [_ CXg].
+    (* the y label of j *)
+    assert (LYS : length YS = length G) by (unfold YS, xys, pv_xys; rewrite !map_length; reflexivity).
+    assert (JY : In j (flat_map snd (listby_groups YS))).
+    { apply (Permutation_in _ (Permutation_sym (listby_groups_perm YS))). apply in_seq. rewrite LYS. lia. }
+    apply in_flat_map in JY. destruct JY as [gy [Hgy Hjy]].
+    destruct (listby_groups_one_per_key YS pv_compatYS) as [_ MY]. rewrite Forall_forall in MY. destruct (MY _ Hgy) as [_ MYg]. destruct (MYg j Hjy) as [_ CYg].
+    destruct (In_nth _ _ d Hgy) as [k [Hk Ek]].
+    exists gi, k. split; [exact Hgi|]. split; [unfold YL, pv_ylabels; fold xys; fold YS; rewrite map_length; exact Hk|].
+    split; [apply (cmp0_trans _ (nth j XS VNone)); [exact CgX | exact CXg]|].
+    assert (EL : nth k YL VNone = tuple_nth 0 (fst gy)).
+    { unfold YL, pv_ylabels. fold xys. fold YS. rewrite <- Ek. apply (map_nth (fun gi0 : val * list nat => tuple_nth 0 (fst gi0)) (listby_groups YS) d). }
+    assert (EYS : nth j YS VNone = VTuple [uj]).
+    { unfold YS. rewrite (nth_indep _ VNone (VTuple [tuple_nth m VNone])) by (rewrite map_length; unfold xys, pv_xys; rewrite map_length; exact Hj).
+      rewrite (map_nth (fun xy => VTuple [tuple_nth m xy])). rewrite EY. reflexivity. }
+    pose proof (listby_groups_rep_in YS gy Hgy) as RY. unfold YS in RY. apply in_map_iff in RY. destruct RY as [xy [Exy _]].
+    rewrite EL, <- Exy. cbn [tuple_nth nth]. rewrite EYS, <- Exy, cmp_tuple1 in CYg.
+    apply (cmp0_trans _ uj); [rewrite <- EY; exact CgY | exact CYg].
+  Qed.
+  Lemma pv_xg_sorted : StronglySorted (fun a b => cmp a b < 0) (map fst (pv_xg m KS)).
+  Proof. apply (listby_groups_one_per_key XS pv_compatXS). Qed.
+End Pivot.
+
+(* ---- on tables whose cells are NaN-free scalars *)
+Definition nf_table (t : table) : Prop := Forall (fun cv => Forall scalar_nf (snd cv)) t.
+Lemma lookup_scalar (r : arow) c : Forall (fun cv => scalar_nf (snd cv)) r -> scalar_nf (lookup r c).
+Proof. induction 1 as [|[c' v] r H _ IH]; cbn; auto. destruct (cmp_str c c'); auto. Qed.
+Lemma row_scalar t i : nf_table t -> Forall (fun cv => scalar_nf (snd cv)) (row t i).
+Proof.
+  intros H. unfold row. apply Forall_forall. intros cv Hcv. apply in_map_iff in Hcv. destruct Hcv as [[c vs] [<- Hc]]. cbn [snd].
+  unfold nf_table in H. rewrite Forall_forall in H. specialize (H _ Hc). cbn in H.
+  destruct (Nat.lt_ge_cases i (length vs)) as [Hi|Hi]; [|rewrite nth_overflow by exact Hi; exact I].
+  rewrite Forall_forall in H. apply H. apply nth_In. exact Hi.
+Qed.
+Lemma key_cols_xy x y r : key_cols (x ++ [y]) r = VTuple (map (lookup r) x ++ [lookup r y]).
+Proof. unfold key_cols. rewrite map_app. reflexivity. Qed.
+Lemma keys_xy_shape x y t : nf_table t -> Forall (xyshape (length x)) (keys_of (x ++ [y]) t).
+Proof.
+  intros H. apply Forall_forall. intros k Hk. unfold keys_of in Hk. apply in_map_iff in Hk. destruct Hk as [r [<- Hr]].
+  unfold rows in Hr. apply in_map_iff in Hr. destruct Hr as [i [<- _]]. rewrite key_cols_xy.
+  exists (map (lookup (row t i)) x), (lookup (row t i) y). split; [reflexivity|]. split; [apply map_length|].
+  pose proof (row_scalar t i H) as RS. split; [|apply lookup_scalar; exact RS].
+  apply Forall_forall. intros v Hv. apply in_map_iff in Hv. destruct Hv as [c [<- _]]. apply lookup_scalar. exact RS.
+Qed.
+
+Theorem pivot_cell_table x y z a t : nf_table t ->
+  let KS := keys_of (x ++ [y]) t in let m := length x in let xg := pv_xg m KS in let YL := pv_ylabels m KS in let zs := getcol t z in
+  pivot x y z a t = key_table x xg ++ map (fun kl => (label_of (snd kl), map (fun gi => pv_cell m KS zs a gi (fst kl)) xg)) (combine (seq 0 (length YL)) YL) /\
+  StronglySorted (fun a b => cmp a b < 0) (map fst xg) /\ StronglySorted (fun a b => cmp a b < 0) YL /\
+  (forall gi k, In gi xg -> (k < length YL)%nat ->
+     pv_cell m KS zs a gi k =
+     match filter (fun i => (cmp (key_cols x (row t i)) (fst gi) =? 0) && (cmp (lookup (row t i) y) (nth k YL VNone) =? 0)) (seq 0 (nrows t)) with
+     | [] => VNone
+     | R => apply_agg a (gather VNone zs R)
+     end) /\
+  (forall i, (i < nrows t)%nat -> exists gi k, In gi xg /\ (k < length YL)%nat /\
+     cmp (key_cols x (row t i)) (fst gi) = 0 /\ cmp (lookup (row t i) y) (nth k YL VNone) = 0).
+Proof.
+  intros H KS m xg YL zs. pose proof (keys_xy_shape x y t H) as HK. fold KS in HK. fold m in HK.
+  assert (LK : length KS = nrows t) by (unfold KS, keys_of; apply keys_length).
+  assert (PX : forall i, (i < nrows t)%nat -> tuple_firstn m (nth i KS VNone) = key_cols x (row t i) /\ tuple_nth m (nth i KS VNone) = lookup (row t i) y).
+  { intros i Hi. unfold KS, keys_of. rewrite nth_keys by exact Hi. rewrite key_cols_xy.
+    rewrite tuple_firstn_shape, tuple_nth_shape by apply map_length. split; reflexivity. }
+  split; [apply pivot_unfold|]. split; [apply (pv_xg_sorted m KS HK)|]. split; [apply (pv_YL_sorted m KS HK)|]. split.
+  - intros gi k Hgi Hk. rewrite (pivot_cell_spec m KS HK zs a gi k Hgi Hk). rewrite LK.
+    erewrite filter_ext_in; [reflexivity|]. intros i Hi. apply in_seq in Hi. destruct (PX i ltac:(lia)) as [-> ->]. reflexivity.
+  - intros i Hi. destruct (pivot_row_has_cell m KS HK i ltac:(lia)) as [gi [k [A [B [C D]]]]]. destruct (PX i Hi) as [E1 E2]. rewrite E1 in C. rewrite E2 in D.
+    exists gi, k. auto.
+Qed.
+(* ================================================================== unpivot . pivot *)
+Lemma map_snd_combine_seq {X} (l : list X) : forall s, map snd (combine (seq s (length l)) l) = l.
+Proof. induction l; intros s; cbn; auto. rewrite IHl. reflexivity. Qed.
+Lemma map_fst_combine_seq {X} (l : list X) : forall s, map fst (combine (seq s (length l)) l) = seq s (length l).
+Proof. induction l; intros s; cbn; auto. rewrite IHl. reflexivity. Qed.
+Lemma filter_none {X} (p : X -> bool) l : (forall a, In a l -> p a = false) -> filter p l = [].
+Proof. induction l; cbn; auto. intros H. rewrite (H a) by auto. apply IHl. intros; apply H; auto. Qed.
+Lemma filter_all {X} (p : X -> bool) l : (forall a, In a l -> p a = true) -> filter p l = l.
+Proof. induction l; cbn; auto. intros H. rewrite (H a) by auto. f_equal. apply IHl. intros; apply H; auto. Qed.
+Lemma find_in_nodup (A : table) cv : NoDup (map fst A) -> In cv A -> find (fun cv' => name_eqb (fst cv) (fst cv')) A = Some cv.
+Proof.
+  induction A as [|a A IH]; intros ND Hin; [destruct Hin|]. cbn [find]. inversion ND; subst.
+  destruct Hin as [->|Hin]. { unfold name_eqb. rewrite cmp_str_refl. reflexivity. }
+  destruct (name_eqb (fst cv) (fst a)) eqn:E; [|apply IH; auto].
+  exfalso. unfold name_eqb in E. destruct (cmp_str (fst cv) (fst a)) eqn:E2; try discriminate. apply cmp_str_eq in E2.
+  apply H1. rewrite <- E2. apply in_map. exact Hin.
+Qed.
+Lemma getcol_app_in (A B : table) cv : NoDup (map fst A) -> In cv A -> getcol (A ++ B) (fst cv) = snd cv.
+Proof. intros ND Hin. unfold getcol. rewrite find_app', (find_in_nodup A cv ND Hin). reflexivity. Qed.
+Lemma key_table_names x G : map fst (key_table x G) = x.
+Proof. unfold key_table. rewrite map_map. cbn [fst]. apply map_snd_combine_seq. Qed.
+Lemma key_table_nth x G j : (j < length x)%nat -> In (nth j x [], map (fun gi : val * list nat => tuple_nth j (fst gi)) G) (key_table x G).
+Proof.
+  intros Hj. unfold key_table. apply in_map_iff. exists (j, nth j x []). split; [reflexivity|].
+  replace (j, nth j x []) with (nth j (combine (seq 0 (length x)) x) (0%nat, [])).
+  - apply nth_In. rewrite combine_length, seq_length, Nat.min_id. exact Hj.
+  - rewrite combine_nth by apply seq_length. rewrite seq_nth by exact Hj. reflexivity.
+Qed.
+Lemma name_eqb_refl c : name_eqb c c = true.
+Proof. unfold name_eqb. rewrite cmp_str_refl. reflexivity. Qed.
+
+Theorem unpivot_pivot_table x y z a t : x <> [] -> NoDup x ->
+  let KS := keys_of (x ++ [y]) t in let m := length x in let xg := pv_xg m KS in let YL := pv_ylabels m KS in let zs := getcol t z in
+  Forall (fun l => in_names (label_of l) x = false) YL ->
+  unpivot x y z (pivot x y z a t) =
+  map (fun jc => (snd jc, flat_map (fun gi : val * list nat => repeat (tuple_nth (fst jc) (fst gi)) (length YL)) xg)) (combine (seq 0 (length x)) x)
+  ++ [(y, flat_map (fun _ : val * list nat => map (fun l => VStr (label_of l)) YL) xg);
+      (z, flat_map (fun gi => map (fun k => pv_cell m KS zs a gi k) (seq 0 (length YL))) xg)].
+Proof.
+  intros Hx ND KS m xg YL zs NC. rewrite pivot_unfold. fold KS. fold m. fold xg. fold YL. fold zs.
+  set (LC := map (fun kl : nat * val => (label_of (snd kl), map (fun gi => pv_cell m KS zs a gi (fst kl)) xg)) (combine (seq 0 (length YL)) YL)).
+  set (d := (VNone, @nil nat)).
+  assert (NK : nonkey x (key_table x xg ++ LC) = LC).
+  { unfold nonkey. rewrite filter_app. rewrite filter_none, filter_all; [reflexivity | |].
+    - intros cv Hcv. unfold LC in Hcv. apply in_map_iff in Hcv. destruct Hcv as [[k l] [<- Hkl]]. cbn [fst snd]. apply in_combine_r in Hkl.
+      rewrite Forall_forall in NC. rewrite (NC l Hkl). reflexivity.
+    - intros cv Hcv. assert (In (fst cv) x) by (rewrite <- (key_table_names x xg); apply in_map; exact Hcv).
+      assert (in_names (fst cv) x = true); [|rewrite H0; reflexivity]. unfold in_names. apply existsb_exists. exists (fst cv). split; [exact H | apply name_eqb_refl]. }
+  assert (NR : nrows (key_table x xg ++ LC) = length xg).
+  { destruct x as [|c x']; [congruence|]. cbn. apply map_length. }
+  assert (LLC : length LC = length YL) by (unfold LC; rewrite map_length, combine_length, seq_length; apply Nat.min_id).
+  unfold unpivot. rewrite NK, NR, LLC. f_equal; [|f_equal; [|f_equal]].
+  - symmetry. apply (rep_table_gen (fun j => flat_map (fun gi : val * list nat => repeat (tuple_nth j (fst gi)) (length YL)) xg)
+                                    (fun c => flat_map (fun v => repeat v (length YL)) (getcol (key_table x xg ++ LC) c)) x 0%nat).
+    intros j Hj. cbv beta. change (0 + j)%nat with j.
+    pose proof (getcol_app_in (key_table x xg) LC _ ltac:(rewrite key_table_names; exact ND) (key_table_nth x xg j Hj)) as GC. cbn [fst snd] in GC.
+    rewrite GC, flat_map_map. reflexivity.
+  - f_equal. rewrite <- (flat_map_seq_nth (fun _ : val * list nat => map (fun l => VStr (label_of l)) YL) d xg).
+    apply flat_map_ext_in'. intros r _. cbv beta. unfold LC. rewrite map_map. cbn [fst].
+    transitivity (map (fun l => VStr (label_of l)) (map snd (combine (seq 0 (length YL)) YL))); [rewrite map_map; reflexivity | f_equal; apply map_snd_combine_seq].
+  - f_equal. rewrite <- (flat_map_seq_nth (fun gi => map (fun k => pv_cell m KS zs a gi k) (seq 0 (length YL))) d xg).
+    apply flat_map_ext_in'. intros r Hr. apply in_seq in Hr. cbv beta. unfold LC. rewrite map_map. cbn [snd].
+    transitivity (map (fun k => pv_cell m KS zs a (nth r xg d) k) (map fst (combine (seq 0 (length YL)) YL))); [|f_equal; apply map_fst_combine_seq].
+    rewrite map_map. apply map_ext. intros kl.
+    rewrite (nth_indep _ VNone (pv_cell m KS zs a d (fst kl))) by (rewrite map_length; lia).
+    apply (map_nth (fun gi => pv_cell m KS zs a gi (fst kl)) xg d).
+Qed.
+
+(* with unique (x, y) pairs every pivot cell is empty or holds the z of its one row *)
+Theorem pivot_cell_unique x y z a t : nf_table t -> (a = ALast \/ a = AFirst) ->
+  (forall i i', (i < nrows t)%nat -> (i' < nrows t)%nat ->
+     cmp (key_cols (x ++ [y]) (row t i)) (key_cols (x ++ [y]) (row t i')) = 0 -> i = i') ->
+  let KS := keys_of (x ++ [y]) t in let m := length x in let xg := pv_xg m KS in let YL := pv_ylabels m KS in let zs := getcol t z in
+  forall gi k, In gi xg -> (k < length YL)%nat ->
+    let matches i := cmp (key_cols x (row t i)) (fst gi) = 0 /\ cmp (lookup (row t i) y) (nth k YL VNone) = 0 in
+    (pv_cell m KS zs a gi k = VNone /\ forall i, (i < nrows t)%nat -> ~ matches i) \/
+    (exists i, (i < nrows t)%nat /\ matches i /\ pv_cell m KS zs a gi k = nth i zs VNone /\ forall i', (i' < nrows t)%nat -> matches i' -> i' = i).
+Proof.
+  intros H Ha U KS m xg YL zs gi k Hgi Hk matches.
+  destruct (pivot_cell_table x y z a t H) as [_ [_ [_ [CS _]]]]. fold KS m xg YL zs in CS. rewrite (CS gi k Hgi Hk). clear CS.
+  set (f := fun i => (cmp (key_cols x (row t i)) (fst gi) =? 0) && (cmp (lookup (row t i) y) (nth k YL VNone) =? 0)).
+  assert (FM : forall i, f i = true <-> matches i). { intros i. unfold f, matches. rewrite andb_true_iff, !Z.eqb_eq. tauto. }
+  assert (UM : forall i i', (i < nrows t)%nat -> (i' < nrows t)%nat -> matches i -> matches i' -> i = i').
+  { intros i i' Hi Hi' [A B] [A' B']. apply U; auto. rewrite !key_cols_xy.
+    pose proof (row_scalar t i H) as R1. pose proof (row_scalar t i' H) as R2.
+    apply cmp_xy_split; try (apply lookup_scalar; auto); try (rewrite !map_length; reflexivity);
+      try (apply Forall_forall; intros v Hv; apply in_map_iff in Hv; destruct Hv as [c [<- _]]; apply lookup_scalar; auto).
+    split; [apply (cmp0_trans _ (fst gi)); [exact A | apply cmp0_sym; exact A'] | apply (cmp0_trans _ (nth k YL VNone)); [exact B | apply cmp0_sym; exact B']]. }
+  pose proof (ssorted_filter _ f _ (seq_ssorted (nrows t) 0%nat)) as SS.
+  destruct (filter f (seq 0 (nrows t))) as [|i R'] eqn:ER.
+  - left. split; [reflexivity|]. intros i Hi Mi. apply FM in Mi.
+    assert (In i (filter f (seq 0 (nrows t)))) by (apply filter_In; split; [apply in_seq; lia | exact Mi]). rewrite ER in H0. destruct H0.
+  - right. assert (Ii : In i (filter f (seq 0 (nrows t)))) by (rewrite ER; left; reflexivity). apply filter_In in Ii. destruct Ii as [Hi Mi].
+    apply in_seq in Hi. apply FM in Mi. exists i. split; [lia|]. split; [exact Mi|].
+    assert (R' = []).
+    { destruct R' as [|i' R'']; [reflexivity|]. exfalso.
+      assert (Ii' : In i' (filter f (seq 0 (nrows t)))) by (rewrite ER; right; left; reflexivity). apply filter_In in Ii'. destruct Ii' as [Hi' Mi'].
+      apply in_seq in Hi'. apply FM in Mi'. assert (i = i') by (apply UM; auto; lia).
+      inversion SS as [|? ? _ F]; subst. rewrite Forall_forall in F. specialize (F i' (or_introl eq_refl)). lia. }
+    subst R'. split; [destruct Ha as [-> | ->]; reflexivity|].
+    intros i' Hi' Mi'. symmetry. apply UM; auto. lia.
+Qed.
